@@ -8,5 +8,6 @@ python3 translator/closures.py ${TV_REPO:-/repo} lean/Tv/GenClosures.lean
 python3 translator/aggs.py ${TV_REPO:-/repo} lean/Tv/GenAgg.lean
 python3 translator/maps.py ${TV_REPO:-/repo} lean/Tv/GenMap.lean
 python3 translator/drivers.py ${TV_REPO:-/repo} lean/Tv/GenDrv.lean
+python3 translator/gens.py ${TV_REPO:-/repo} lean/Tv/GenLin.lean
 (cd lean && lake build Tv tvmodel)
 (cd harness && cargo build)
